@@ -326,6 +326,9 @@ func (session *HermesSession) Run(workingDir string, args []string, logID string
 
 			g.TAG.Add(g.DT.Index)
 			if g.TAG.Index+1 > g.JTAG {
+				if g.JTAG < daysInYear(1900+g.J) {
+					return fmt.Errorf("%s weather data of year %d end on day %d of %d", g.LOGID, 1900+g.J, g.JTAG, daysInYear(1900+g.J))
+				}
 				g.J++
 				JZ = JZ + 1
 				//MONAT 1 TAG 1
